@@ -52,7 +52,7 @@
 // -DTREE_SEL=k selects the selector / transformer variant (engine/tree.hpp)
 #define VERIF_K 3
 #define VERIF_GROUPS ( T::G_CORE | T::G_MUST | T::G_EXC | T::G_HOLE )
-#define VERIF_FAMS ( 1 | 2 | 32 )
+#define VERIF_FAMS ( 1 | 2 | 32 | 64 )
 #define VERIF_CTLS 1
 #define VERIF_TREE
 #elif defined( SPACE_LIMITS )
@@ -64,7 +64,7 @@
 #elif defined( SPACE_SCOPES )
 #define VERIF_K 4
 #define VERIF_GROUPS ( T::G_CORE | T::G_ACT | T::G_STATE )
-#define VERIF_FAMS ( ( 1 << 12 ) | ( 1 << 13 ) | ( 1 << 14 ) | ( 1 << 16 ) )
+#define VERIF_FAMS ( ( 1 << 12 ) | ( 1 << 13 ) | ( 1 << 14 ) | ( 1 << 16 ) | ( 1 << 17 ) | ( 1 << 18 ) | ( 1 << 19 ) )
 #define VERIF_CTLS 8
 #elif defined( SPACE_ATOMS )
 // library atoms (ascii convenience + contrib) under every one-level context, on guard-paged inputs; -DATOMS_LAZY=0|1
@@ -79,9 +79,9 @@
 // -DVERIF_TRACK=... -DVERIF_EOL=... -DVERIF_EOL_KIND=n -DPOS_LAZY=0|1 come from the registry
 #define VERIF_K 3
 #if POS_LAZY
-#define VERIF_GROUPS ( T::G_CORE | T::G_CONV | T::G_ATOM2 | T::G_POS | T::G_PRED | T::G_REMATCH )
+#define VERIF_GROUPS ( T::G_CORE | T::G_CONV | T::G_ATOM2 | T::G_POS | T::G_POS2 | T::G_PRED | T::G_REMATCH )
 #else
-#define VERIF_GROUPS ( T::G_CORE | T::G_CONV | T::G_ATOM2 | T::G_POS | T::G_PRED | T::G_REMATCH | T::G_BOL )
+#define VERIF_GROUPS ( T::G_CORE | T::G_CONV | T::G_ATOM2 | T::G_POS | T::G_POS2 | T::G_PRED | T::G_REMATCH | T::G_BOL )
 #endif
 #define VERIF_FAMS ( 1 | 2 )
 #define VERIF_CTLS 1
@@ -382,7 +382,7 @@ struct Space
          p.act_may_throw = true;
          p.act_may_veto = true;
          p.dev_bound = thorough ? 2 : 1;
-         p.cfgs = cfg_product( { 0, 1, 5 }, { 0 }, { 1 }, { 0 } );
+         p.cfgs = cfg_product( { 0, 1, 5, 6 }, { 0 }, { 1 }, { 0 } );
          phases.push_back( p );
 #if TREE_SEL == 0
          {
@@ -421,6 +421,7 @@ struct Space
          p.L = thorough ? 5 : 4;
          p.sigma = "ab";
          p.buf_modes = { 1 };
+         p.counters = { { 0, 1, 1 }, { 7, 3, 5 } };  // the window is relative to the cursor, not to the input's byte counter
          p.cfgs = cfg_product( { 8, 9 }, { 0 }, { 1 }, { 1, 0 } );
          phases.push_back( p );
          Phase q = p;
@@ -438,13 +439,13 @@ struct Space
       {
          Phase p;
          p.name = "state_action_control_scopes";
-         p.root = { CORE_OPS, "STATE", "ENABLE", "DISABLE", "CONTROL_SW" };
-         p.inner = { "ANY", "ONE_A", "EOF_", CORE_OPS, "STATE", "DISABLE", "CONTROL_SW" };
+         p.root = { CORE_OPS, "STATE", "STATE_D", "ENABLE", "DISABLE", "CONTROL_SW" };
+         p.inner = { "ANY", "ONE_A", "EOF_", CORE_OPS, "STATE", "STATE_D", "DISABLE", "CONTROL_SW" };
          p.N = thorough ? 4 : 4;
          p.L = thorough ? 3 : 2;
          p.sigma = "ab";
          p.flat_inner = false;
-         p.cfgs = cfg_product( { 12, 13, 14, 16 }, { 3 }, { 1, 0 }, { 1 } );
+         p.cfgs = cfg_product( { 12, 13, 14, 16, 17, 18, 19 }, { 3 }, { 1, 0 }, { 1 } );
          phases.push_back( p );
       }
 #elif defined( SPACE_ATOMS )
@@ -527,6 +528,20 @@ struct Space
          q.flat_inner = false;
          q.cfgs = cfg_product( { 1 }, { 0 }, { 1 }, { 1, 0 } );
          phases.push_back( q );
+         // every way a class rule decides, at compile time, whether it may consume the eol character (bump() vs
+         // bump_in_this_line()): packs with the eol character first / last, even / odd packs, strings, utf8:: and uint8::
+         // forms, masked comparisons
+         Phase b;
+         b.name = "bump_selection_of_class_rules";
+         b.root = { "STAR", "SEQ", "UNTIL2" };
+         b.inner = { "ONE_A_LF_CR", "ONE_LF_CR_A", "RANGE_TAB_CR", "NOT_RANGE_AB", "RANGES_EOL_LAST", "RANGES_EOL_FIRST", "RANGES_ODD_LF", "RANGES_ODD_CR", "STRING_A_LF", "STRING_CR_A", "ISTRING_A_LF", "ISTRING_CR_A", "U8_ONE_A_LF_CR", "U8_NOT_ONE_A", "U8_RANGE_TAB_CR", "U8_NOT_RANGE_AB", "U8_RANGES_EOL_LAST", "UINT8_ANY", "UINT8_ONE_LF_CR", "UINT8_MASK_ONE", "UINT8_MASK_NOT_ONE", "UINT8_MASK_RANGE", "UINT8_MASK_NOT_RANGE", "UINT8_MASK_RANGES", "UINT8_MASK_RANGE2", "UINT8_MASK_RANGES2", "UINT8_MASK_NOT_ONE2", "EOF_", "ANY" };
+         b.N = 3;
+         b.flat_inner = true;
+         b.L = thorough ? 4 : 3;
+         b.sigma = std::string( "a\n\r" );
+         b.counters = { { 0, 1, 1 } };
+         b.cfgs = cfg_product( { 1 }, { 0 }, { 1 }, { 1 } );
+         phases.push_back( b );
       }
 #endif
    }
